@@ -67,12 +67,19 @@ func load(repo, tier string) (*Ctx, error) {
 }
 
 func loadCfg(repo, tier string, extraEnv []string, tags []string) (*Ctx, error) {
+	return loadOverlay(repo, tier, extraEnv, tags, nil)
+}
+
+// loadOverlay loads the working tree with some files replaced in memory (used only for the
+// positive controls of the thorough tier; nothing is written to disk).
+func loadOverlay(repo, tier string, extraEnv []string, tags []string, overlay map[string][]byte) (*Ctx, error) {
 	env := append(os.Environ(), "GOFLAGS=-mod=mod", "GOPROXY=off", "GOSUMDB=off", "GOTOOLCHAIN=local", "GOWORK=off")
 	env = append(env, extraEnv...)
 	cfg := &packages.Config{
-		Mode: packages.LoadAllSyntax,
-		Dir:  repo,
-		Env:  env,
+		Mode:    packages.LoadAllSyntax,
+		Dir:     repo,
+		Env:     env,
+		Overlay: overlay,
 	}
 	if len(tags) > 0 {
 		cfg.BuildFlags = []string{"-tags=" + strings.Join(tags, ",")}
